@@ -172,7 +172,16 @@ static std::map<std::string, World::OpFn>& op_registry()
     static std::map<std::string, World::OpFn> r;
     return r;
 }
-void World::register_op(const std::string& name, OpFn fn) { op_registry()[name] = std::move(fn); }
+void World::register_op(const std::string& name, OpFn fn)
+{
+    // one registry for all checks: a second registration under the same name would silently replace another check's operation
+    if (op_registry().count(name))
+    {
+        fprintf(stderr, "harness error: operation '%s' registered twice\n", name.c_str());
+        abort();
+    }
+    op_registry()[name] = std::move(fn);
+}
 
 static std::string read_uuid(World& w)
 {
